@@ -35,7 +35,7 @@ fn inner(e: &Value, items: &[&str]) -> String {
         "inter" => format!("{}&&{}", operand(&e["l"], items), operand(&e["r"], items)),
         "diff" => format!("{}--{}", operand(&e["l"], items), operand(&e["r"], items)),
         "symdiff" => format!("{}~~{}", operand(&e["l"], items), operand(&e["r"], items)),
-        "neg" => bracket(e, items),
+        "neg" | "grp" => bracket(e, items),
         o => panic!("harness: class op {o}"),
     }
 }
@@ -49,6 +49,8 @@ fn operand(e: &Value, items: &[&str]) -> String {
 pub fn bracket(e: &Value, items: &[&str]) -> String {
     if e["op"] == "neg" {
         format!("[^{}]", inner(&e["x"], items))
+    } else if e["op"] == "grp" {
+        format!("[{}]", inner(&e["x"], items))
     } else {
         format!("[{}]", inner(e, items))
     }
